@@ -133,6 +133,9 @@ func (g *Gen) runOnce() {
 		g.sc.add([]string{t}, fmt.Sprintf("(declare-const %s %s)", t, srt))
 		st.cells[key] = Val{T: t}
 		g.assume(st, g.wf(t, et))
+		// what a captured variable holds at entry exists already (like a parameter's value): it
+		// cannot alias memory the closure allocates afterwards
+		g.assume(st, g.allocatedIn(t, et, "top0", 0))
 		fr.free[fv] = Val{P: &Ptr{Kind: PCell, Cell: key, RootT: et}, T: g.addrConst("fv_" + fv.Name())}
 	}
 	if fn.Parent() != nil {
